@@ -33,6 +33,16 @@ def rand_cell(rng, system):
 
 def _rand_cell(rng, system):
     a, b, c = (rng.uniform(1.5, 12) for _ in range(3))
+    if rng.random() < 0.08:
+        # legal but extreme: a long-period, nearly orthogonal cell (genuine B elements below 1e-7 next to ordinary ones), or a cell in units that make
+        # every B element tiny
+        if system == "Monoclinic":
+            c = rng.uniform(1000, 5000)
+            be = 90.0 + rng.choice((-1, 1)) * 10.0 ** rng.uniform(-4, -3)
+            return (a, b, c, be), (a, b, c, 90, be, 90)
+        if system in ("Cubic", "Orthorhombic", "Tetragonal"):
+            k = rng.choice([1e8, 3e7, 1e-6])
+            a, b, c = a * k, b * k, c * k
     ints = rng.random() < 0.3         # a cell typed in whole numbers: Python ints, not floats (lengths, and the free angles)
     if ints:
         a, b, c = (rng.randint(2, 12) for _ in range(3))
@@ -114,6 +124,9 @@ def correspondence(ctx):
                 kinds.add((system, label))
                 try:
                     cr = crystal_of(form)
+                    if ctx.rng.random() < 0.5:
+                        str(cr)          # looking at a crystal must not change it
+                        label = label + "+printed"; kinds.add((system, label))
                     exp = ("ok", cr.system, [cr.a1, cr.a2, cr.a3, cr.alpha1, cr.alpha2, cr.alpha3], np.asarray(cr.B, float).flatten().tolist())
                 except (TypeError, ValueError) as e:
                     exp = ("none", type(e).__name__)
@@ -219,6 +232,9 @@ def oracle(ctx, widen=1):
                 bad = None
                 try:
                     cr = crystal_of(form)
+                    if ctx.rng.random() < 0.5:
+                        str(cr)          # looking at a crystal must not change it
+                        label = label + "+printed"; kinds.add((system, label))
                     # the cell is a value: a copy, a deep copy or an unpickled crystal is the same crystal
                     cr, how = clone(ctx.rng, cr)
                     if how != "same":
